@@ -9,11 +9,11 @@ import (
 // Register adds the prolly-tree level checks.
 func Register() {
 	rig.Register(&rig.Spec{Prop: "C11", Level: "exploration", Stages: []rig.Stage{
-		{Name: "histories", Fn: c11, TimeoutQuick: 25 * time.Minute, TimeoutThorough: 6 * time.Hour}}})
+		{Name: "histories", Fn: c11, TimeoutQuick: 8 * time.Minute, TimeoutThorough: 4 * time.Hour}}})
 	rig.Register(&rig.Spec{Prop: "C12", Level: "exploration", Stages: []rig.Stage{
-		{Name: "routes", Fn: c12, TimeoutQuick: 25 * time.Minute, TimeoutThorough: 6 * time.Hour}}})
+		{Name: "routes", Fn: c12, TimeoutQuick: 8 * time.Minute, TimeoutThorough: 4 * time.Hour}}})
 	rig.Register(&rig.Spec{Prop: "C13", Level: "exploration", Stages: []rig.Stage{
-		{Name: "pairs", Fn: c13, TimeoutQuick: 25 * time.Minute, TimeoutThorough: 6 * time.Hour}}})
+		{Name: "pairs", Fn: c13, TimeoutQuick: 8 * time.Minute, TimeoutThorough: 4 * time.Hour}}})
 	rig.Register(&rig.Spec{Prop: "C14", Level: "exploration", Stages: []rig.Stage{
-		{Name: "triples", Fn: c14, TimeoutQuick: 25 * time.Minute, TimeoutThorough: 6 * time.Hour}}})
+		{Name: "triples", Fn: c14, TimeoutQuick: 8 * time.Minute, TimeoutThorough: 4 * time.Hour}}})
 }
